@@ -130,7 +130,7 @@ def verify_struct(task):
     try:
         for name, ok, detail in task.check(loader):
             res.struct.append((name, ok, detail))
-            res.obls.append(Obl(f"struct:{task.name}:{name}", "struct", [], z3.BoolVal(bool(ok)), "struct", 0, detail))
+            res.obls.append(Obl(f"struct:{task.name}:{name}", "struct-text" if getattr(task, "textual", False) else "struct", [], z3.BoolVal(bool(ok)), "struct", 0, detail))
     except (KeyError, AttributeError, TypeError, IndexError, ValueError) as u:
         res.undecided = f"structural check could not read the source: {type(u).__name__}: {u}"
     return res
